@@ -416,12 +416,29 @@ def run(ctx: Ctx) -> None:
     ctx.check("C19.R7", w7, "every bind yields one socket", okr, "each bind string must append exactly one socket to the returned list", cs)
     # create_sockets wiring
     cr = repo.func("config", "Config.create_sockets")
-    cc = [c for c in calls(cr) if call_name(c) == "self._create_sockets"]
-    shape = sorted((norm(c.args[0]), norm(c.args[1]) if len(c.args) > 1 else "", ("self.ssl_enabled", True) in guard_atoms(c)) for c in cc)
-    want = sorted([("self.bind", "", True), ("self.insecure_bind", "", True), ("self.quic_bind", "socket.SOCK_DGRAM", True), ("self.bind", "", False)])
-    ctx.check("C19.R7", "config:Config.create_sockets", "bind lists -> socket groups", shape == want, f"create_sockets calls: {shape}", cr)
-    rs = [n for n in walk_local(cr) if isinstance(n, ast.Return)]
-    ctx.check("C19.R7", "config:Config.create_sockets", "Sockets(secure, insecure, quic)", len(rs) == 1 and norm(rs[0].value) == "Sockets(secure_sockets, insecure_sockets, quic_sockets)", f"returns {[norm(r.value) for r in rs]}", cr)
+    from ..pred import eval_function as _evf7
+    from .common import value_slice as _vs7
+
+    fields = [n.target.id for n in repo.cls("config", "Sockets").body if isinstance(n, ast.AnnAssign) and isinstance(n.target, ast.Name)]
+
+    def _args_of(c_):
+        vals = list(c_.args) + [None] * (len(fields) - len(c_.args))
+        for kw_ in c_.keywords:
+            if kw_.arg in fields:
+                vals[fields.index(kw_.arg)] = kw_.value
+        return ast.Tuple(elts=[v_ if v_ is not None else ast.Constant(value="<missing>") for v_ in vals], ctx=ast.Load())
+
+    sl = _vs7(cr.body, lambda c_: call_name(c_) == "Sockets", _args_of)
+    mk = lambda *a, **kw: ("sockets",) + tuple(a) + tuple(sorted(kw.items()))  # noqa: E731
+    for ssl_on, want in ((True, (("sockets", "B"), ("sockets", "I"), ("sockets", "Q", "DGRAM"))), (False, ([], ("sockets", "B"), []))):
+        try:
+            got = _evf7(sl, {"__lenient__": True, "self.ssl_enabled": ssl_on, "self.bind": "B", "self.insecure_bind": "I", "self.quic_bind": "Q", "socket.SOCK_DGRAM": "DGRAM", "call:self._create_sockets": lambda b_, t_=None, **kw: ("sockets", b_) + ((t_,) if t_ is not None else ()) + ((kw["type_"],) if "type_" in kw else ())})
+            got = tuple(tuple(x) if isinstance(x, tuple) else x for x in got) if isinstance(got, (tuple, list)) else got
+        except Exception as error:
+            got = f"not evaluable: {error}"
+        ctx.check("C19.R7", "config:Config.create_sockets", f"ssl_enabled={ssl_on}: Sockets(secure, insecure, quic) built from bind / insecure_bind / quic_bind (datagram)", got == want, f"gives {got}, expected {want}", cr)
+    sq = [c for c in calls(cr) if call_name(c) == "self._set_quic_addresses"]
+    ctx.check("C19.R7", "config:Config.create_sockets", "QUIC addresses recorded from the QUIC sockets", len(sq) == 1 and ("self.ssl_enabled", True) in guard_atoms(sq[0]), "alt-svc advertisement needs the bound QUIC addresses", sq[0] if sq else cr)
 
     ctx.assume("not decided: the socket family/address the OS actually produces for arbitrary bind strings; tomllib / importlib behaviour; argparse's own parsing")
     ctx.assume("flag->setting oracle: identity on names plus the rename table in rules/c19.py (the CLI's documented meaning)")
